@@ -139,6 +139,14 @@ def run_notify_users(ctx):
         threads = ["upd"] + sorted(sc["waiters"]) + (["cancel"] if sc["cancel"] != "none" else [])
         for seq in vf.blind_schedules(ctx.rng, threads, nb, 12 + 8 * len(threads)):
             scripts.append({"id": len(scripts), "cfg": dict(sc, scen=si + 1), "steps": [{"act": "step", "d": t} for t in seq]})
+    # peer cache only, model-independent (NotifyUser.tla has no removal): the updater also removes the peer from the
+    # topic (-1 = RemoveFromCache) between updates; a waiter parked across the removal must still see the next update
+    for sc in [dict(kind="peercache", ops=[1, -1, 2], waiters=["w1"], calls=2, cancel="none"),
+               dict(kind="peercache", ops=[1, -1, 1], waiters=["w1", "w2"], calls=2, cancel="none"),
+               dict(kind="peercache", ops=[1, 2, -1, 3], waiters=["w1"], calls=3, cancel="none")]:
+        threads = ["upd"] + sorted(sc["waiters"])
+        for seq in vf.blind_schedules(ctx.rng, threads, nb, 16 + 10 * len(threads)):
+            scripts.append({"id": len(scripts), "cfg": dict(sc, scen=0), "steps": [{"act": "step", "d": t} for t in seq]})
     cap = 3000 if quick else 25000
     for kind, pkg, files, src, drv in (("lifecycle", "pkg/lifecycle", ["vf_lifecycle_verif_test.go"], "pkg/lifecycle/manager.go", "^TestVerifLifecycleSched$"),
                                        ("peercache", "pkg/tinder", ["vf_peercache_verif_test.go"], "pkg/tinder/peer_cache.go", "^TestVerifPeerCacheSched$")):
